@@ -98,13 +98,22 @@ def oracle(scn, trace):
             out.append(V("R1", "more invocations than max_attempts", {"call": cid, "invocations": n, "max_attempts": cfg["max_attempts"], "entry": ent}))
         follow = {}
         for i, a in enumerate(cf.attempts):
-            if a.kind not in ("exc", "res") or a.fclass is None:
+            if a.kind not in ("exc", "res"):
                 continue
             has_next = i + 1 < n
-            if has_next and a.fclass in NON_RETRYABLE:
-                out.append(V("R2", "attempt after a non-retryable failure", {"call": cid, "attempt": a.k, "class": a.fclass, "entry": ent}))
+            K = a.fclass
+            if K is None and has_next and a.kind == "exc" and a.cls and not getattr(a, "timed_out", False) \
+                    and not any(e["ev"] == "POLL" and e["ans"] for e in a.post()):
+                # the failure was followed by another attempt without ever being shown to the classifier (e.g. a verdict
+                # remembered from the last time this exception object was seen): what counts is what the classifier
+                # says about it now, i.e. the scripted class
+                K = a.cls
+            if K is None:
+                continue
+            if has_next and K in NON_RETRYABLE:
+                out.append(V("R2", "attempt after a non-retryable failure", {"call": cid, "attempt": a.k, "class": K, "entry": ent}))
             if has_next:
-                follow[a.fclass] = follow.get(a.fclass, 0) + 1
+                follow[K] = follow.get(K, 0) + 1
         for K, L in (cfg.get("per_class") or {}).items():
             if follow.get(K, 0) > L:
                 out.append(V("R3", "retries after class exceed per_class_max_attempts", {"call": cid, "class": K, "limit": L, "retries": follow[K], "entry": ent}))
